@@ -1,5 +1,6 @@
-(* Lemmas about the IGS tokenizer model (Model/IgsTok.v): the loop-header invariant, no panic site of the tokenizer is reached
-   except the i32 arithmetic of Loop::next_step (known finding igs-panic:next_step), for every executor and fallback parser. *)
+(* Lemmas about the IGS tokenizer model (Model/IgsTok.v): the loop-header invariant; no panic site of the tokenizer is reached,
+   for every executor and fallback parser (since the fix commits Loop::new rejects a step <= 0 and Loop::next_step saturates
+   its counter and the +n / -n / !n parameter arithmetic); every loop ends after at most |to - from| steps. *)
 From Coq Require Import NArith ZArith List Bool Lia Arith.
 From IE Require Import Gen.IgsGen Model.RipTok Model.BgiKernel Proofs.RipTokProofs Proofs.BgiProofs.
 From IE Require Import Model.IgsTok.
@@ -34,6 +35,12 @@ Proof.
 Qed.
 
 (* ---------- the invariant ---------- *)
+(* every number the tokenizer accumulates lies in 0 ..= i32::MAX - 48 (parse_next_number saturates, then subtracts '0') *)
+Definition NUM_MAX : Z := 2147483599.
+Definition NumOk (v : Z) : Prop := 0 <= v <= NUM_MAX.
+Definition NumsOk (p : ipars) : Prop := Forall NumOk (i_nums p).
+Definition InI32 (v : Z) : Prop := I32_MIN <= v <= I32_MAX.
+
 Definition LoopHdr (p : ipars) : Prop :=
   nth_error (i_nums p) 3 = Some 0 /\
   match i_lstate p with
@@ -42,22 +49,63 @@ Definition LoopHdr (p : ipars) : Prop :=
   | LReadParameter => length (i_nums p) = 5%nat /\ i_lparams p <> [] /\ Forall (fun g => g <> []) (i_lparams p)
   end.
 
-Definition LoopOk (l : iloop) : Prop := l_params l <> [] /\ l_delay l = 0.
+(* a loop as Loop::new builds it from tokenizer numbers and next_step keeps it: at least one parameter group, delay 0, a
+   positive step, header numbers from the tokenizer, the counter on the `from` side of its range (it may have run past `to`,
+   saturated at the i32 limits) *)
+Definition LoopOk (l : iloop) : Prop :=
+  l_params l <> [] /\ l_delay l = 0 /\ 1 <= l_step l <= NUM_MAX /\ 0 <= l_from l <= NUM_MAX /\ 0 <= l_to l <= NUM_MAX /\
+  (if l_from l <? l_to l then l_from l <= l_i l <= I32_MAX else I32_MIN <= l_i l <= l_from l).
 
 Definition IgsInv (p : ipars) : Prop :=
   (i_state p = IReadCommand CH_LOOP -> (4 <= length (i_nums p))%nat -> LoopHdr p) /\
   (i_state p = IReadCommand CH_LOOP -> (length (i_nums p) < 4)%nat -> i_lstate p = LStart) /\
   match i_loop p with Some l => LoopOk l | None => True end.
 
+(* the invariant of the stream theorems *)
+Definition IgsInvN (p : ipars) : Prop := IgsInv p /\ NumsOk p.
+
 Lemma ipars_new_inv : IgsInv ipars_new.
 Proof. split; [intros H; discriminate H|split; [intros H; discriminate H|exact I]]. Qed.
+
+Lemma ipars_new_invN : IgsInvN ipars_new.
+Proof. split; [exact ipars_new_inv|constructor]. Qed.
+
+(* ---------- the numbers of the tokenizer ---------- *)
+Lemma sat_range z : I32_MIN <= sat z <= I32_MAX.
+Proof. unfold sat, I32_MIN, I32_MAX. lia. Qed.
+
+Lemma sat_id z : I32_MIN <= z <= I32_MAX -> sat z = z.
+Proof. unfold sat. lia. Qed.
+
+Lemma parse_next_number_ok d ch : 0 <= d -> is_digit ch = true -> NumOk (parse_next_number d ch).
+Proof.
+  unfold is_digit, parse_next_number, sat, NumOk, NUM_MAX, I32_MIN, I32_MAX. intros Hd H.
+  apply andb_true_iff in H. destruct H as [H1 H2]. apply N.leb_le in H1, H2. lia.
+Qed.
+
+Lemma push_digit_ok nums ch : Forall NumOk nums -> is_digit ch = true -> Forall NumOk (push_digit nums ch).
+Proof.
+  intros F D. unfold push_digit. pose proof (unsnoc_spec nums) as SP. destruct (unsnoc nums) as [[r d]|].
+  - subst nums. apply Forall_app in F. destruct F as [F1 F2]. inversion F2 as [|? ? Hd _]; subst.
+    apply Forall_app. split; [exact F1|constructor; [apply parse_next_number_ok; [unfold NumOk in Hd; lia|exact D]|constructor]].
+  - constructor; [apply parse_next_number_ok; [lia|exact D]|constructor].
+Qed.
+
+Lemma NumOk_i32 v : NumOk v -> InI32 v.
+Proof. unfold NumOk, InI32, NUM_MAX, I32_MIN, I32_MAX. lia. Qed.
+
+Lemma NumsOk_i32 p : NumsOk p -> Forall InI32 (i_nums p).
+Proof. unfold NumsOk. apply Forall_impl. exact NumOk_i32. Qed.
+
+Lemma nums_nth p k v : NumsOk p -> nth_error (i_nums p) k = Some v -> NumOk v.
+Proof. intros F E. unfold NumsOk in F. rewrite Forall_forall in F. apply F. eapply nth_error_In; eauto. Qed.
 
 (* a parser whose state is not "reading a loop command" satisfies the invariant as soon as its running loop does *)
 Lemma IgsInv_idle p : i_state p <> IReadCommand CH_LOOP -> match i_loop p with Some l => LoopOk l | None => True end -> IgsInv p.
 Proof. intros H L. split; [intros E; contradiction|split; [intros E; contradiction|exact L]]. Qed.
 
 Definition PostI {X FS} (r : res (iworld X FS * bool)) : Prop :=
-  match r with Ok (w', _) => IgsInv (w_p X FS w') | Panic s => s = SITE_IGS_LOOP_ARITH end.
+  match r with Ok (w', _) => IgsInv (w_p X FS w') | Panic _ => False end.
 
 Section IgsProofs.
   Variable X : Type.
@@ -65,155 +113,165 @@ Section IgsProofs.
   Variable FS : Type.
   Variable fb_print : FS -> N -> FS * bool.
 
-  Lemma chkl_cases z : (chkl z = Ok z /\ I32_MIN <= z <= I32_MAX) \/ chkl z = Panic SITE_IGS_LOOP_ARITH.
-  Proof. unfold chkl. destruct (in_i32 z) eqn:E; [left; split; [reflexivity|apply in_i32_iff; exact E]|right; reflexivity]. Qed.
+  Lemma chkl_ok z : I32_MIN <= z <= I32_MAX -> chkl z = Ok z.
+  Proof. intros H. unfold chkl. replace (in_i32 z) with true; [reflexivity|]. symmetry. apply in_i32_iff. exact H. Qed.
 
-  Ltac chkl_tac := match goal with |- context [chkl ?z] => destruct (chkl_cases z) as [[-> ?] | ->]; cbn [bind]; [|reflexivity] end.
+  Ltac chkl1 := rewrite chkl_ok by (unfold I32_MIN, I32_MAX, NUM_MAX in *; lia); cbn [bind].
 
-  Lemma eval_param_post l p : match eval_param l p with Ok _ => True | Panic s => s = SITE_IGS_LOOP_ARITH end.
+  Lemma parse_i32_range s v : parse_i32 s = Some v -> InI32 v.
   Proof.
-    unfold eval_param. destruct (param_mode p) as [mode p'].
-    repeat chkl_tac.
-    destruct (param_base p' (Z.abs (l_i l)) (Z.abs (l_to l - 1 - l_i l))) as [v|]; [|exact I].
-    destruct (mode =? 1); [chkl_tac; exact I|]. destruct (mode =? 2); [chkl_tac; exact I|]. destruct (mode =? 3); [chkl_tac; exact I|exact I].
+    unfold parse_i32. intros H.
+    assert (B : forall (neg : bool) t,
+              match t with
+              | [] => None
+              | _ => match digits_val t 0 with
+                     | Some n => let v := if neg then - n else n in if in_i32 v then Some v else None
+                     | None => None
+                     end
+              end = Some v -> InI32 v).
+    { intros neg t. destruct t as [|c0 t0]; [discriminate|]. destruct (digits_val (c0 :: t0) 0) as [n|]; [|discriminate]. cbv zeta.
+      destruct (in_i32 (if neg then - n else n)) eqn:E; [|discriminate]. intros Q. inversion Q; subst. apply in_i32_iff. exact E. }
+    destruct s as [|c t]; [discriminate|].
+    destruct (c =? 43)%N; [exact (B false t H)|]. destruct (c =? 45)%N; [exact (B true t H)|exact (B false (c :: t) H)].
   Qed.
 
-  Lemma eval_params_post l ps : match eval_params l ps with Ok _ => True | Panic s => s = SITE_IGS_LOOP_ARITH end.
+  (* the plain i32 operations of a parameter evaluation (|i|, to - 1, to - 1 - i and its abs) are in range *)
+  Definition RunRange (l : iloop) : Prop :=
+    I32_MIN < l_i l <= I32_MAX /\ I32_MIN < l_to l <= I32_MAX /\ I32_MIN < l_to l - 1 - l_i l <= I32_MAX.
+
+  Lemma eval_param_ok l p : RunRange l -> exists v, eval_param l p = Ok v /\ match v with Some z => InI32 z | None => True end.
   Proof.
-    induction ps as [|p t IH]; simpl; [exact I|].
-    pose proof (eval_param_post l p) as Q. destruct (eval_param l p) as [v|s]; cbn [bind]; [|exact Q].
-    destruct (eval_params l t) as [r|s]; cbn [bind]; [exact I|exact IH].
+    intros (RI & RT & RY). unfold eval_param. destruct (param_mode p) as [mode p'].
+    chkl1. chkl1. chkl1. chkl1.
+    destruct (param_base p' (Z.abs (l_i l)) (Z.abs (l_to l - 1 - l_i l))) as [v|] eqn:EB; [|exists None; split; [reflexivity|exact I]].
+    eexists. split; [reflexivity|]. cbv beta.
+    assert (BV : InI32 v).
+    { unfold param_base in EB.
+      destruct p' as [|c [|c2 t]]; try (apply parse_i32_range in EB; exact EB).
+      destruct (c =? 120)%N; [inversion EB; subst; unfold InI32, I32_MIN, I32_MAX in *; lia|]. destruct (c =? 121)%N; [inversion EB; subst; unfold InI32, I32_MIN, I32_MAX in *; lia|].
+      apply parse_i32_range in EB. exact EB. }
+    destruct (mode =? 1); [apply sat_range|]. destruct (mode =? 2); [apply sat_range|]. destruct (mode =? 3); [apply sat_range|exact BV].
   Qed.
 
-  (* Loop::next_step: with at least one parameter group and delay 0, only the i32 arithmetic can panic; the loop it returns
-     keeps that shape *)
+  Lemma eval_params_ok l ps : RunRange l -> exists vals, eval_params l ps = Ok vals /\ Forall InI32 vals.
+  Proof.
+    intros RR. induction ps as [|p t IH]; simpl; [eauto|].
+    destruct (eval_param_ok l p RR) as (v & E & HV). rewrite E. cbn [bind].
+    destruct IH as (r & E2 & F2). rewrite E2. cbn [bind]. eexists. split; [reflexivity|].
+    destruct v; [constructor; assumption|exact F2].
+  Qed.
+
+  (* whatever the loop record, the values handed to the executor are i32 values *)
+  Lemma eval_params_range l ps vals : eval_params l ps = Ok vals -> Forall InI32 vals.
+  Proof.
+    revert vals. induction ps as [|p t IH]; intros vals H; simpl in H; [inversion H; constructor|].
+    destruct (eval_param l p) as [v|] eqn:E; cbn [bind] in H; [|discriminate].
+    destruct (eval_params l t) as [r|]; cbn [bind] in H; [|discriminate]. inversion H; subst. specialize (IH r eq_refl).
+    destruct v as [z|]; [|exact IH]. constructor; [|exact IH].
+    unfold eval_param in E. destruct (param_mode p) as [mode p'].
+    unfold chkl in E.
+    destruct (in_i32 (Z.abs (l_i l))) eqn:E1; cbn [bind] in E; [|discriminate].
+    destruct (in_i32 (l_to l - 1)) eqn:E2; cbn [bind] in E; [|discriminate].
+    destruct (in_i32 (l_to l - 1 - l_i l)) eqn:E3; cbn [bind] in E; [|discriminate].
+    destruct (in_i32 (Z.abs (l_to l - 1 - l_i l))) eqn:E4; cbn [bind] in E; [|discriminate].
+    apply in_i32_iff in E1, E4.
+    destruct (param_base p' (Z.abs (l_i l)) (Z.abs (l_to l - 1 - l_i l))) as [v|] eqn:EB; [|discriminate].
+    inversion E; subst.
+    assert (BV : InI32 v).
+    { unfold param_base in EB.
+      destruct p' as [|c [|c2 t']]; try (apply parse_i32_range in EB; exact EB).
+      destruct (c =? 120)%N; [inversion EB; subst; exact E1|]. destruct (c =? 121)%N; [inversion EB; subst; exact E4|].
+      apply parse_i32_range in EB. exact EB. }
+    destruct (mode =? 1); [apply sat_range|]. destruct (mode =? 2); [apply sat_range|]. destruct (mode =? 3); [apply sat_range|exact BV].
+  Qed.
+
+  Lemma LoopOk_running l : LoopOk l -> loop_running l = true -> RunRange l /\ I32_MIN <= l_i l - l_from l <= I32_MAX.
+  Proof.
+    intros (NP & D0 & HS & HF & HT & HI). unfold loop_running, RunRange.
+    destruct (l_from l <? l_to l) eqn:EFT; [apply Z.ltb_lt in EFT|apply Z.ltb_ge in EFT]; intros ER;
+      [apply Z.ltb_lt in ER|apply Z.ltb_lt in ER]; unfold I32_MIN, I32_MAX, NUM_MAX in *; lia.
+  Qed.
+
+  (* Loop::next_step never panics on such a loop, and the loop it returns is such a loop again *)
   Lemma next_step_post x l : LoopOk l ->
     match next_step X exec x l with
     | Ok (Some (_, l', _)) => LoopOk l'
     | Ok None => True
-    | Panic s => s = SITE_IGS_LOOP_ARITH
-    end.
-  Proof.
-    intros [NP D0]. unfold next_step. destruct (negb (loop_running l)); [exact I|].
-    chkl_tac.
-    destruct (Nat.eqb (length (l_params l)) 0) eqn:EL; [apply Nat.eqb_eq in EL; destruct (l_params l); [contradiction|discriminate]|].
-    apply Nat.eqb_neq in EL.
-    set (d := l_i l - l_from l) in *.
-    assert (U : 0 <= i32_as_usize d).
-    { unfold i32_as_usize. destruct (d <? 0) eqn:E1; [apply Z.ltb_lt in E1; unfold I32_MIN in *; lia|apply Z.ltb_ge in E1; lia]. }
-    pose proof (Z.rem_bound_pos (i32_as_usize d) (Z.of_nat (length (l_params l))) U ltac:(lia)) as B.
-    destruct (idx_ok SITE_IGS_LOOP_INDEX (l_params l) _ B) as [ps [E _]]. rewrite E. cbn [bind].
-    pose proof (eval_params_post l ps) as Q. destruct (eval_params l ps) as [vals|s]; cbn [bind]; [|exact Q].
-    destruct (exec x (l_cmd l) vals (l_str l)) as [x' ok].
-    rewrite D0. cbn [Z.eqb negb].
-    destruct (l_from l <? l_to l); chkl_tac; (split; [exact NP|reflexivity]).
-  Qed.
-  Ltac norm := unfold LoopHdr; cbn [w_p mkw p_state p_nums p_str p_lstate p_lcmd p_lparams p_gdc p_loop mkp i_state i_nums i_str i_lstate i_lcmd i_lparams i_gdc i_loop length].
-
-  (* ---------- Loop::next_step outside the known class: header and parameter values up to 10^9 ---------- *)
-  Definition LB : Z := 1000000000.
-
-  Definition ParamSmall (p : str) : Prop := forall v, parse_i32 (snd (param_mode p)) = Some v -> - LB <= v <= LB.
-
-  Definition LoopSmall (l : iloop) : Prop :=
-    0 <= l_from l <= LB /\ 0 <= l_to l <= LB /\ 0 <= l_step l <= LB /\
-    (if l_from l <? l_to l then l_from l <= l_i l <= 2 * LB else - LB <= l_i l <= l_from l) /\
-    Forall (Forall ParamSmall) (l_params l).
-
-  Lemma chkl_ok z : I32_MIN <= z <= I32_MAX -> chkl z = Ok z.
-  Proof. intros H. unfold chkl. replace (in_i32 z) with true; [reflexivity|]. symmetry. apply in_i32_iff. exact H. Qed.
-
-  Ltac chkl1 := rewrite chkl_ok by (unfold I32_MIN, I32_MAX, LB in *; lia); cbn [bind].
-
-  Lemma eval_param_small l p : 0 <= l_i l <= LB -> 0 <= l_to l <= LB -> ParamSmall p -> exists v, eval_param l p = Ok v.
-  Proof.
-    intros HI HT PS. unfold eval_param. unfold ParamSmall in PS. destruct (param_mode p) as [mode p']. cbn [snd] in PS.
-    repeat chkl1.
-    destruct (param_base p' (Z.abs (l_i l)) (Z.abs (l_to l - 1 - l_i l))) as [v|] eqn:EB; [|eauto].
-    assert (BV : - LB - 1 <= v <= LB + 1).
-    { unfold param_base in EB.
-      destruct p' as [|c [|c2 t]]; try (specialize (PS v EB); lia).
-      destruct (c =? 120)%N; [inversion EB; lia|]. destruct (c =? 121)%N; [inversion EB; lia|]. specialize (PS v EB). lia. }
-    destruct (mode =? 1); [chkl1; eauto|]. destruct (mode =? 2); [chkl1; eauto|]. destruct (mode =? 3); [chkl1; eauto|cbn [bind]; eauto].
-  Qed.
-
-  Lemma eval_params_small l ps : 0 <= l_i l <= LB -> 0 <= l_to l <= LB -> Forall ParamSmall ps -> exists v, eval_params l ps = Ok v.
-  Proof.
-    intros HI HT. induction ps as [|p t IH]; intros F; simpl; [eauto|].
-    inversion F as [|? ? P1 F1]; subst. destruct (eval_param_small l p HI HT P1) as [v E]. rewrite E. cbn [bind].
-    destruct (IH F1) as [r E2]. rewrite E2. cbn [bind]. eauto.
-  Qed.
-
-  (* with a header and parameter values of at most 10^9 a loop step never panics, and the next state is again such a loop *)
-  Lemma next_step_small x l : LoopOk l -> LoopSmall l ->
-    match next_step X exec x l with
-    | Ok (Some (_, l', _)) => LoopOk l' /\ LoopSmall l'
-    | Ok None => True
     | Panic _ => False
     end.
   Proof.
-    intros [NP D0] (HF & HT & HS & HI & HP). unfold next_step, loop_running.
-    destruct (l_from l <? l_to l) eqn:EFT; [apply Z.ltb_lt in EFT|apply Z.ltb_ge in EFT].
-    - destruct (l_i l <? l_to l) eqn:ER; [apply Z.ltb_lt in ER|exact I]. cbn [negb]. chkl1.
-      destruct (Nat.eqb (length (l_params l)) 0) eqn:EL; [apply Nat.eqb_eq in EL; destruct (l_params l); [contradiction|discriminate]|].
-      apply Nat.eqb_neq in EL.
-      assert (U : 0 <= i32_as_usize (l_i l - l_from l)) by (unfold i32_as_usize; destruct (l_i l - l_from l <? 0) eqn:E1; [apply Z.ltb_lt in E1|apply Z.ltb_ge in E1]; lia).
-      pose proof (Z.rem_bound_pos _ (Z.of_nat (length (l_params l))) U ltac:(lia)) as B.
-      destruct (idx_ok SITE_IGS_LOOP_INDEX (l_params l) _ B) as [ps [E NE]]. rewrite E. cbn [bind].
-      assert (PS : Forall ParamSmall ps) by (rewrite Forall_forall in HP; apply HP; eapply nth_error_In; eauto).
-      destruct (eval_params_small l ps ltac:(lia) HT PS) as [vals EV]. rewrite EV. cbn [bind].
-      destruct (exec x (l_cmd l) vals (l_str l)) as [x' ok]. rewrite D0. cbn [Z.eqb negb]. chkl1.
-      split; [split; [exact NP|reflexivity]|]. unfold LoopSmall. cbn [l_i l_from l_to l_step l_params].
-      replace (l_from l <? l_to l) with true by (symmetry; apply Z.ltb_lt; lia). repeat split; try lia; assumption.
-    - destruct (l_to l <? l_i l) eqn:ER; [apply Z.ltb_lt in ER|exact I]. cbn [negb]. chkl1.
-      destruct (Nat.eqb (length (l_params l)) 0) eqn:EL; [apply Nat.eqb_eq in EL; destruct (l_params l); [contradiction|discriminate]|].
-      apply Nat.eqb_neq in EL.
-      assert (U : 0 <= i32_as_usize (l_i l - l_from l)) by (unfold i32_as_usize; destruct (l_i l - l_from l <? 0) eqn:E1; [apply Z.ltb_lt in E1|apply Z.ltb_ge in E1]; unfold LB in *; lia).
-      pose proof (Z.rem_bound_pos _ (Z.of_nat (length (l_params l))) U ltac:(lia)) as B.
-      destruct (idx_ok SITE_IGS_LOOP_INDEX (l_params l) _ B) as [ps [E NE]]. rewrite E. cbn [bind].
-      assert (PS : Forall ParamSmall ps) by (rewrite Forall_forall in HP; apply HP; eapply nth_error_In; eauto).
-      destruct (eval_params_small l ps ltac:(lia) HT PS) as [vals EV]. rewrite EV. cbn [bind].
-      destruct (exec x (l_cmd l) vals (l_str l)) as [x' ok]. rewrite D0. cbn [Z.eqb negb]. chkl1.
-      split; [split; [exact NP|reflexivity]|]. unfold LoopSmall. cbn [l_i l_from l_to l_step l_params].
-      replace (l_from l <? l_to l) with false by (symmetry; apply Z.ltb_ge; lia). repeat split; try lia; assumption.
+    intros LO. pose proof LO as (NP & D0 & HS & HF & HT & HI). unfold next_step.
+    destruct (loop_running l) eqn:RUN; cbn [negb]; [|exact I].
+    destruct (LoopOk_running l LO RUN) as [RR RD]. chkl1.
+    destruct (Nat.eqb (length (l_params l)) 0) eqn:EL; [apply Nat.eqb_eq in EL; destruct (l_params l); [contradiction|discriminate]|].
+    apply Nat.eqb_neq in EL.
+    assert (U : 0 <= i32_as_usize (l_i l - l_from l)).
+    { unfold i32_as_usize. destruct (l_i l - l_from l <? 0) eqn:E1; [apply Z.ltb_lt in E1; unfold I32_MIN in *; lia|apply Z.ltb_ge in E1; lia]. }
+    pose proof (Z.rem_bound_pos (i32_as_usize (l_i l - l_from l)) (Z.of_nat (length (l_params l))) U ltac:(lia)) as B.
+    destruct (idx_ok SITE_IGS_LOOP_INDEX (l_params l) _ B) as [ps [E _]]. rewrite E. cbn [bind].
+    destruct (eval_params_ok l ps RR) as (vals & EV & _). rewrite EV. cbn [bind].
+    destruct (exec x (l_cmd l) vals (l_str l)) as [x' ok].
+    rewrite D0. cbn [Z.eqb negb]. cbv zeta.
+    unfold LoopOk. cbn [l_i l_from l_to l_step l_delay l_params].
+    unfold loop_running in RUN.
+    destruct (l_from l <? l_to l) eqn:EFT; [apply Z.ltb_lt in EFT; apply Z.ltb_lt in RUN|apply Z.ltb_ge in EFT; apply Z.ltb_lt in RUN];
+      (split; [exact NP|split; [reflexivity|split; [exact HS|split; [exact HF|split; [exact HT|]]]]]);
+      unfold sat, I32_MIN, I32_MAX, NUM_MAX in *; lia.
   Qed.
+  Ltac norm := unfold LoopHdr; cbn [w_p mkw p_state p_nums p_str p_lstate p_lcmd p_lparams p_gdc p_loop mkp i_state i_nums i_str i_lstate i_lcmd i_lparams i_gdc i_loop length].
 
-  (* ---------- progress: a loop with step >= 1 ends after at most |to - from| steps; with step 0 it never ends ---------- *)
+  (* ---------- progress: every executed step brings the counter at least one (and, unless it saturates, `step`) closer to `to` ---------- *)
   Definition loop_measure (l : iloop) : Z := if l_from l <? l_to l then l_to l - l_i l else l_i l - l_to l.
 
-  Lemma next_step_progress x l x' l' ok : next_step X exec x l = Ok (Some (x', l', ok)) -> 1 <= l_step l ->
-    0 < loop_measure l /\ loop_measure l' <= loop_measure l - l_step l /\
-    l_from l' = l_from l /\ l_to l' = l_to l /\ l_step l' = l_step l.
+  Lemma next_step_fields x l x' l' ok : next_step X exec x l = Ok (Some (x', l', ok)) ->
+    loop_running l = true /\
+    l' = {| l_i := if l_from l <? l_to l then sat (l_i l + l_step l) else sat (l_i l - l_step l); l_from := l_from l; l_to := l_to l;
+            l_step := l_step l; l_delay := l_delay l; l_cmd := l_cmd l; l_str := l_str l; l_params := l_params l |}.
   Proof.
-    unfold next_step, loop_running, loop_measure. intros H HS.
-    destruct (l_from l <? l_to l) eqn:EFT.
-    - destruct (l_i l <? l_to l) eqn:ER; [apply Z.ltb_lt in ER|discriminate H]. cbn [negb] in H.
-      destruct (chkl (l_i l - l_from l)); [|discriminate H]. cbn [bind] in H.
-      destruct (Nat.eqb (length (l_params l)) 0); [discriminate H|].
-      destruct (idx SITE_IGS_LOOP_INDEX (l_params l) _); [|discriminate H]. cbn [bind] in H.
-      destruct (eval_params l a0); [|discriminate H]. cbn [bind] in H.
-      destruct (exec x (l_cmd l) a1 (l_str l)). destruct (negb (l_delay l =? 0)); [discriminate H|].
-      unfold chkl in H. destruct (in_i32 (l_i l + l_step l)); [|discriminate H]. cbn [bind] in H. inversion H; subst. simpl. rewrite EFT. lia.
-    - destruct (l_to l <? l_i l) eqn:ER; [apply Z.ltb_lt in ER|discriminate H]. cbn [negb] in H.
-      destruct (chkl (l_i l - l_from l)); [|discriminate H]. cbn [bind] in H.
-      destruct (Nat.eqb (length (l_params l)) 0); [discriminate H|].
-      destruct (idx SITE_IGS_LOOP_INDEX (l_params l) _); [|discriminate H]. cbn [bind] in H.
-      destruct (eval_params l a0); [|discriminate H]. cbn [bind] in H.
-      destruct (exec x (l_cmd l) a1 (l_str l)). destruct (negb (l_delay l =? 0)); [discriminate H|].
-      unfold chkl in H. destruct (in_i32 (l_i l - l_step l)); [|discriminate H]. cbn [bind] in H. inversion H; subst. simpl. rewrite EFT. lia.
-  Qed.
-
-  Lemma next_step_stuck x l x' l' ok : next_step X exec x l = Ok (Some (x', l', ok)) -> l_step l = 0 -> l' = l.
-  Proof.
-    unfold next_step. intros H HS.
-    destruct (negb (loop_running l)); [discriminate H|].
+    unfold next_step. intros H.
+    destruct (loop_running l); cbn [negb] in H; [|discriminate H]. split; [reflexivity|].
     destruct (chkl (l_i l - l_from l)); [|discriminate H]. cbn [bind] in H.
     destruct (Nat.eqb (length (l_params l)) 0); [discriminate H|].
     destruct (idx SITE_IGS_LOOP_INDEX (l_params l) _); [|discriminate H]. cbn [bind] in H.
     destruct (eval_params l a0); [|discriminate H]. cbn [bind] in H.
-    destruct (exec x (l_cmd l) a1 (l_str l)). destruct (negb (l_delay l =? 0)) eqn:ED; [discriminate H|].
-    rewrite HS in H. rewrite Z.add_0_r, Z.sub_0_r in H.
-    destruct (l_from l <? l_to l); unfold chkl in H; (destruct (in_i32 (l_i l)); [|discriminate H]); cbn [bind] in H; inversion H; subst; destruct l; simpl in *; subst; reflexivity.
+    destruct (exec x (l_cmd l) a1 (l_str l)). destruct (negb (l_delay l =? 0)); [discriminate H|].
+    cbv zeta in H. inversion H; subst. reflexivity.
+  Qed.
+
+  Lemma next_step_progress x l x' l' ok : LoopOk l -> next_step X exec x l = Ok (Some (x', l', ok)) ->
+    0 < loop_measure l /\ loop_measure l' <= loop_measure l - 1 /\
+    (loop_measure l' = loop_measure l - l_step l \/ loop_measure l' <= 0) /\
+    l_from l' = l_from l /\ l_to l' = l_to l /\ l_step l' = l_step l.
+  Proof.
+    intros (NP & D0 & HS & HF & HT & HI) H. destruct (next_step_fields _ _ _ _ _ H) as [RUN ->].
+    unfold loop_measure, loop_running in *. cbn [l_i l_from l_to l_step].
+    destruct (l_from l <? l_to l) eqn:EFT; apply Z.ltb_lt in RUN; unfold sat, I32_MIN, I32_MAX, NUM_MAX in *;
+      (split; [lia|split; [lia|split; [lia|auto]]]).
+  Qed.
+
+  (* the old behaviour (documentation of what Loop::new now rejects): with step 0 a step leaves the loop as it is *)
+  Lemma next_step_stuck x l x' l' ok : I32_MIN <= l_i l <= I32_MAX -> next_step X exec x l = Ok (Some (x', l', ok)) -> l_step l = 0 -> l' = l.
+  Proof.
+    intros RI H HS. destruct (next_step_fields _ _ _ _ _ H) as [_ ->]. rewrite HS, Z.add_0_r, Z.sub_0_r, sat_id by exact RI.
+    destruct l as [li lf lt ls ld lc lst lp]. cbn [l_i l_from l_to l_step l_delay l_cmd l_str l_params] in *. subst ls.
+    destruct (lf <? lt); reflexivity.
+  Qed.
+
+  (* termination: a loop runs at most max(0, its measure) steps, then next_step answers None *)
+  Inductive LoopEnds : nat -> X -> iloop -> Prop :=
+  | LE_done x l : next_step X exec x l = Ok None -> LoopEnds 0 x l
+  | LE_step k x l x' l' ok : next_step X exec x l = Ok (Some (x', l', ok)) -> LoopEnds k x' l' -> LoopEnds (S k) x l.
+
+  Lemma loop_ends n : forall x l, LoopOk l -> loop_measure l <= Z.of_nat n -> exists k, (k <= n)%nat /\ LoopEnds k x l.
+  Proof.
+    induction n as [|n IH]; intros x l LO HM.
+    - pose proof (next_step_post x l LO) as Q. destruct (next_step X exec x l) as [[[[x' l'] ok]|]|s] eqn:E; [| |contradiction].
+      + destruct (next_step_progress _ _ _ _ _ LO E) as (P & _). simpl in HM. lia.
+      + exists 0%nat. split; [lia|constructor; exact E].
+    - pose proof (next_step_post x l LO) as Q. destruct (next_step X exec x l) as [[[[x' l'] ok]|]|s] eqn:E; [| |contradiction].
+      + destruct (next_step_progress _ _ _ _ _ LO E) as (P & D & _).
+        destruct (IH x' l' Q ltac:(lia)) as (k & Hk & LE). exists (S k). split; [lia|econstructor; eauto].
+      + exists 0%nat. split; [lia|constructor; exact E].
   Qed.
 
   Lemma idx5 (nums : list Z) k : length nums = 5%nat -> (k < 5)%nat -> exists v, idx SITE_IGS_NUMS nums (Z.of_nat k) = Ok v /\ nth_error nums k = Some v.
@@ -222,21 +280,27 @@ Section IgsProofs.
   Qed.
 
   (* the `,` / `:` arms of ReadParameter *)
-  Lemma loop_sep_post w colon : IgsInv (w_p X FS w) -> i_state (w_p X FS w) = IReadCommand CH_LOOP -> (4 <= length (i_nums (w_p X FS w)))%nat ->
+  Lemma loop_sep_post w colon : IgsInv (w_p X FS w) -> NumsOk (w_p X FS w) -> i_state (w_p X FS w) = IReadCommand CH_LOOP -> (4 <= length (i_nums (w_p X FS w)))%nat ->
     i_lstate (w_p X FS w) = LReadParameter -> PostI (loop_sep X exec FS w colon).
   Proof.
-    intros (H1 & H2 & H3) ST L4 LS. destruct (H1 ST L4) as (N3 & HL). rewrite LS in HL. destruct HL as (L5 & NE & FA).
+    intros (H1 & H2 & H3) NO ST L4 LS. destruct (H1 ST L4) as (N3 & HL). rewrite LS in HL. destruct HL as (L5 & NE & FA).
     unfold loop_sep.
     destruct (idx5 _ 4 L5 ltac:(lia)) as (n4 & E4 & _). change (Z.of_nat 4) with 4 in E4. rewrite E4. cbn [bind].
     destruct (n4 <=? total_params (i_lparams (w_p X FS w))).
-    - destruct (idx5 _ 0 L5 ltac:(lia)) as (a & Ea & _). change (Z.of_nat 0) with 0 in Ea. rewrite Ea. cbn [bind].
-      destruct (idx5 _ 1 L5 ltac:(lia)) as (b & Eb & _). change (Z.of_nat 1) with 1 in Eb. rewrite Eb. cbn [bind].
-      destruct (idx5 _ 2 L5 ltac:(lia)) as (c & Ec & _). change (Z.of_nat 2) with 2 in Ec. rewrite Ec. cbn [bind].
+    - destruct (idx5 _ 0 L5 ltac:(lia)) as (a & Ea & Na). change (Z.of_nat 0) with 0 in Ea. rewrite Ea. cbn [bind].
+      destruct (idx5 _ 1 L5 ltac:(lia)) as (b & Eb & Nb). change (Z.of_nat 1) with 1 in Eb. rewrite Eb. cbn [bind].
+      destruct (idx5 _ 2 L5 ltac:(lia)) as (c & Ec & Nc). change (Z.of_nat 2) with 2 in Ec. rewrite Ec. cbn [bind].
       destruct (idx5 _ 3 L5 ltac:(lia)) as (d & Ed & Nd). change (Z.of_nat 3) with 3 in Ed. rewrite Ed. cbn [bind].
       assert (d = 0) by congruence. subst d.
+      pose proof (nums_nth _ _ _ NO Na) as Ra. pose proof (nums_nth _ _ _ NO Nb) as Rb. pose proof (nums_nth _ _ _ NO Nc) as Rc.
+      unfold NumOk in Ra, Rb, Rc.
       destruct (from_char (i_lcmd (w_p X FS w))) as [cmd|].
-      + set (l := {| l_i := a; l_from := a; l_to := b; l_step := c; l_delay := 0; l_cmd := cmd; l_str := i_str (w_p X FS w); l_params := i_lparams (w_p X FS w) |}).
-        assert (LO : LoopOk l) by (split; [exact NE|reflexivity]).
+      + destruct (c <=? 0) eqn:EC0; [cbn [PostI]; apply IgsInv_idle; [simpl; discriminate|simpl; exact H3]|]. apply Z.leb_gt in EC0.
+        set (l := {| l_i := a; l_from := a; l_to := b; l_step := c; l_delay := 0; l_cmd := cmd; l_str := i_str (w_p X FS w); l_params := i_lparams (w_p X FS w) |}).
+        assert (LO : LoopOk l).
+        { unfold LoopOk, l. cbn [l_i l_from l_to l_step l_delay l_params].
+          split; [exact NE|split; [reflexivity|split; [lia|split; [lia|split; [lia|]]]]].
+          destruct (a <? b); unfold I32_MIN, I32_MAX, NUM_MAX in *; lia. }
         pose proof (next_step_post (w_x X FS w) l LO) as Q.
         destruct (next_step X exec (w_x X FS w) l) as [[[[x' l'] ok]|]|s]; cbn [bind PostI]; [| |exact Q].
         * apply IgsInv_idle; [simpl; discriminate|simpl; exact Q].
@@ -256,10 +320,10 @@ Section IgsProofs.
   Qed.
 
   (* the LoopCommand sub-machine *)
-  Lemma loop_char_post w ch : IgsInv (w_p X FS w) -> i_state (w_p X FS w) = IReadCommand CH_LOOP -> (4 <= length (i_nums (w_p X FS w)))%nat ->
+  Lemma loop_char_post w ch : IgsInv (w_p X FS w) -> NumsOk (w_p X FS w) -> i_state (w_p X FS w) = IReadCommand CH_LOOP -> (4 <= length (i_nums (w_p X FS w)))%nat ->
     PostI (loop_char X exec FS w ch).
   Proof.
-    intros HI ST L4. pose proof HI as (H1 & H2 & H3). destruct (H1 ST L4) as (N3 & HL).
+    intros HI NO ST L4. pose proof HI as (H1 & H2 & H3). destruct (H1 ST L4) as (N3 & HL).
     unfold loop_char. destruct (i_lstate (w_p X FS w)) eqn:LS.
     - (* Start *)
       cbn [PostI]. destruct (ch =? 44)%N; [|exact HI].
@@ -300,9 +364,9 @@ Section IgsProofs.
   Proof. intros E H. inversion H; subst. rewrite N.eqb_refl in E. discriminate. Qed.
 
   (* print_char *)
-  Lemma igs_step_post w ch : IgsInv (w_p X FS w) -> PostI (igs_step X exec FS fb_print w ch).
+  Lemma igs_step_post w ch : IgsInv (w_p X FS w) -> NumsOk (w_p X FS w) -> PostI (igs_step X exec FS fb_print w ch).
   Proof.
-    intros HI. pose proof HI as (H1 & H2 & H3). unfold igs_step.
+    intros HI NO. pose proof HI as (H1 & H2 & H3). unfold igs_step.
     destruct (i_state (w_p X FS w)) as [| | | |c] eqn:ST.
     - (* Default *)
       destruct (ch =? 71)%N; cbn [PostI]; [apply IgsInv_idle; [simpl; discriminate|simpl; exact H3]|].
@@ -388,23 +452,89 @@ Section IgsProofs.
     - split; [exact H1|split; [exact H2|exact I]].
   Qed.
 
-  Lemma igs_run_post es : forall w, IgsInv (w_p X FS w) ->
-    match igs_run X exec FS fb_print w es with Ok w' => IgsInv (w_p X FS w') | Panic s => s = SITE_IGS_LOOP_ARITH end.
+  (* ---------- the numbers stay tokenizer numbers (independent of the loop-header invariant) ---------- *)
+  Definition PostN (r : res (iworld X FS * bool)) : Prop := match r with Ok (w', _) => NumsOk (w_p X FS w') | Panic _ => True end.
+
+  Lemma loop_sep_N w colon : NumsOk (w_p X FS w) -> PostN (loop_sep X exec FS w colon).
+  Proof.
+    intros NO. unfold loop_sep.
+    destruct (idx SITE_IGS_NUMS (i_nums (w_p X FS w)) 4); cbn [bind PostN]; [|exact I].
+    destruct (a <=? total_params (i_lparams (w_p X FS w))).
+    - destruct (idx SITE_IGS_NUMS (i_nums (w_p X FS w)) 0); cbn [bind PostN]; [|exact I].
+      destruct (idx SITE_IGS_NUMS (i_nums (w_p X FS w)) 1); cbn [bind PostN]; [|exact I].
+      destruct (idx SITE_IGS_NUMS (i_nums (w_p X FS w)) 2); cbn [bind PostN]; [|exact I].
+      destruct (idx SITE_IGS_NUMS (i_nums (w_p X FS w)) 3); cbn [bind PostN]; [|exact I].
+      destruct (from_char (i_lcmd (w_p X FS w))) as [cmd|]; cbn [PostN]; [|exact NO].
+      destruct (a2 <=? 0); cbn [PostN]; [exact NO|].
+      match goal with |- context [next_step X exec ?x ?l] => destruct (next_step X exec x l) as [[[[x' l'] ok]|]|s] end; cbn [bind PostN]; [exact NO|exact NO|exact I].
+    - destruct colon; cbn [PostN]; [exact NO|]. destruct (unsnoc (i_lparams (w_p X FS w))) as [[r g]|]; cbn [PostN]; [exact NO|exact I].
+  Qed.
+
+  Lemma igs_step_N w ch : NumsOk (w_p X FS w) -> PostN (igs_step X exec FS fb_print w ch).
+  Proof.
+    intros NO. assert (N0 : forall p', i_nums p' = [] -> NumsOk p') by (intros p' E; unfold NumsOk; rewrite E; constructor).
+    unfold igs_step.
+    destruct (i_state (w_p X FS w)) as [| | | |c].
+    - destruct (ch =? 71)%N; cbn [PostN]; [exact NO|]. destruct (fb_print (w_fb X FS w) ch). exact NO.
+    - destruct (ch =? 35)%N; cbn [PostN]; [exact NO|]. destruct (fb_print (w_fb X FS w) 71%N). destruct (fb_print f ch). exact NO.
+    - destruct (ch =? 13)%N; cbn [PostN]; [apply N0; reflexivity|]. destruct (ch =? 10)%N; cbn [PostN]; [apply N0; reflexivity|].
+      destruct (ch =? 38)%N; cbn [PostN]; [apply N0; reflexivity|]. destruct (from_char ch); apply N0; reflexivity.
+    - destruct (ch =? 13)%N; cbn [PostN]; [exact NO|]. destruct (ch =? 71)%N; cbn [PostN]; [exact NO|]. destruct (fb_print (w_fb X FS w) ch). exact NO.
+    - destruct ((c =? IGS_WRITETEXT)%N && Nat.leb 3 (length (i_nums (w_p X FS w)))).
+      { destruct (ch =? 64)%N.
+        - destruct (exec (w_x X FS w) c (i_nums (w_p X FS w)) (i_str (w_p X FS w))). apply N0. reflexivity.
+        - destruct (ch =? 10)%N; exact NO. }
+      destruct ((c =? CH_LOOP)%N && Nat.leb 4 (length (i_nums (w_p X FS w)))).
+      { unfold loop_char. destruct (i_lstate (w_p X FS w)).
+        - destruct (ch =? 44)%N; exact NO.
+        - destruct ((ch =? 64)%N || (ch =? 124)%N || (ch =? 44)%N); cbn [PostN]; [|exact NO].
+          unfold NumsOk. norm. apply Forall_app. split; [exact NO|constructor; [unfold NumOk, NUM_MAX; lia|constructor]].
+        - destruct (is_digit ch) eqn:ED; [cbn [PostN]; unfold NumsOk; norm; apply push_digit_ok; assumption|]. destruct (ch =? 44)%N; exact NO.
+        - destruct ((ch =? 95)%N || (ch =? 10)%N || (ch =? 13)%N); [exact NO|].
+          destruct (ch =? 44)%N; [apply loop_sep_N; exact NO|]. destruct (ch =? 58)%N; [apply loop_sep_N; exact NO|].
+          destruct (unsnoc (i_lparams (w_p X FS w))) as [[r g]|]; [|exact I]. destruct (unsnoc g) as [[r2 s]|]; [exact NO|exact I]. }
+      destruct ((ch =? 32)%N || (ch =? 62)%N || (ch =? 13)%N); [exact NO|].
+      destruct (ch =? 95)%N; [exact NO|]. destruct (ch =? 10)%N; [destruct (i_gdc (w_p X FS w)); exact NO|].
+      destruct (is_digit ch) eqn:ED; [cbn [PostN]; unfold NumsOk; norm; apply push_digit_ok; assumption|].
+      destruct (ch =? 44)%N; [cbn [PostN]; unfold NumsOk; norm; apply Forall_app; split; [exact NO|constructor; [unfold NumOk, NUM_MAX; lia|constructor]]|].
+      destruct (ch =? 58)%N; [|exact NO].
+      destruct (exec (w_x X FS w) c (i_nums (w_p X FS w)) (i_str (w_p X FS w))). apply N0. reflexivity.
+  Qed.
+
+  Lemma igs_next_action_N w : NumsOk (w_p X FS w) -> PostN (igs_next_action X exec FS w).
+  Proof.
+    intros NO. unfold igs_next_action. destruct (i_loop (w_p X FS w)) as [l|]; [|exact NO].
+    destruct (next_step X exec (w_x X FS w) l) as [[[[x' l'] ok]|]|s]; cbn [bind PostN]; [exact NO|exact NO|exact I].
+  Qed.
+
+  (* ---------- one event, the whole run ---------- *)
+  Lemma igs_event_post w e : IgsInvN (w_p X FS w) ->
+    match igs_event X exec FS fb_print w e with Ok (w', _) => IgsInvN (w_p X FS w') | Panic _ => False end.
+  Proof.
+    intros [HI NO].
+    assert (A : PostI (igs_event X exec FS fb_print w e)) by (destruct e; [apply igs_step_post|apply igs_next_action_post]; assumption).
+    assert (B : PostN (igs_event X exec FS fb_print w e)) by (destruct e; [apply igs_step_N|apply igs_next_action_N]; assumption).
+    destruct (igs_event X exec FS fb_print w e) as [[w' ok]|s]; cbn [PostI PostN] in *; [split; assumption|exact A].
+  Qed.
+
+  Lemma igs_run_post es : forall w, IgsInvN (w_p X FS w) ->
+    match igs_run X exec FS fb_print w es with Ok w' => IgsInvN (w_p X FS w') | Panic _ => False end.
   Proof.
     induction es as [|e t IH]; intros w HI; cbn [igs_run]; [exact HI|].
-    assert (Q : PostI (igs_event X exec FS fb_print w e)) by (destruct e; [apply igs_step_post|apply igs_next_action_post]; exact HI).
-    destruct (igs_event X exec FS fb_print w e) as [[w' ok]|s]; cbn [bind PostI fst] in *; [apply IH; exact Q|exact Q].
+    pose proof (igs_event_post w e HI) as Q.
+    destruct (igs_event X exec FS fb_print w e) as [[w' ok]|s]; cbn [bind fst] in *; [apply IH; exact Q|exact Q].
   Qed.
 End IgsProofs.
 
 (* ---------- an invariant of the executor state is an invariant of the whole parser ---------- *)
+(* the executor only ever sees i32 parameters: tokenizer numbers, or loop parameter values (parsed i32s, |i|, saturated sums) *)
 Section ExecInv.
   Variable X : Type.
   Variable exec : X -> N -> list Z -> str -> X * bool.
   Variable FS : Type.
   Variable fb_print : FS -> N -> FS * bool.
   Variable Q : X -> Prop.
-  Hypothesis exec_Q : forall x c ps s, Q x -> Q (fst (exec x c ps s)).
+  Hypothesis exec_Q : forall x c ps s, Forall InI32 ps -> Q x -> Q (fst (exec x c ps s)).
 
   Definition PostQ (r : res (iworld X FS * bool)) : Prop := match r with Ok (w', _) => Q (w_x X FS w') | Panic _ => True end.
 
@@ -414,10 +544,9 @@ Section ExecInv.
     destruct (chkl (l_i l - l_from l)); cbn [bind]; [|exact I].
     destruct (Nat.eqb (length (l_params l)) 0); [exact I|].
     destruct (idx SITE_IGS_LOOP_INDEX (l_params l) _); cbn [bind]; [|exact I].
-    destruct (eval_params l a0); cbn [bind]; [|exact I].
-    pose proof (exec_Q x (l_cmd l) a1 (l_str l) HQ) as E. destruct (exec x (l_cmd l) a1 (l_str l)) as [x' ok]. cbn [fst] in E.
-    destruct (negb (l_delay l =? 0)); [exact I|].
-    destruct (l_from l <? l_to l); (destruct (chkl _); cbn [bind]; [exact E|exact I]).
+    destruct (eval_params l a0) as [vals|] eqn:EV; cbn [bind]; [|exact I].
+    pose proof (exec_Q x (l_cmd l) vals (l_str l) (eval_params_range l a0 vals EV) HQ) as E. destruct (exec x (l_cmd l) vals (l_str l)) as [x' ok]. cbn [fst] in E.
+    destruct (negb (l_delay l =? 0)); [exact I|]. cbv zeta. exact E.
   Qed.
 
   Lemma loop_sep_Q w colon : Q (w_x X FS w) -> PostQ (loop_sep X exec FS w colon).
@@ -430,14 +559,15 @@ Section ExecInv.
       destruct (idx SITE_IGS_NUMS (i_nums (w_p X FS w)) 2); cbn [bind PostQ]; [|exact I].
       destruct (idx SITE_IGS_NUMS (i_nums (w_p X FS w)) 3); cbn [bind PostQ]; [|exact I].
       destruct (from_char (i_lcmd (w_p X FS w))) as [cmd|]; cbn [PostQ]; [|exact HQ].
+      destruct (a2 <=? 0); cbn [PostQ]; [exact HQ|].
       match goal with |- context [next_step X exec ?x ?l] => pose proof (next_step_Q x l HQ) as E; destruct (next_step X exec x l) as [[[[x' l'] ok]|]|s] end;
         cbn [bind PostQ]; [exact E|exact HQ|exact I].
     - destruct colon; cbn [PostQ]; [exact HQ|]. destruct (unsnoc (i_lparams (w_p X FS w))) as [[r g]|]; cbn [PostQ]; [exact HQ|exact I].
   Qed.
 
-  Lemma igs_step_Q w ch : Q (w_x X FS w) -> PostQ (igs_step X exec FS fb_print w ch).
+  Lemma igs_step_Q w ch : NumsOk (w_p X FS w) -> Q (w_x X FS w) -> PostQ (igs_step X exec FS fb_print w ch).
   Proof.
-    intros HQ. unfold igs_step.
+    intros NO HQ. pose proof (NumsOk_i32 _ NO) as NI. unfold igs_step.
     destruct (i_state (w_p X FS w)) as [| | | |c].
     - destruct (ch =? 71)%N; cbn [PostQ]; [exact HQ|]. destruct (fb_print (w_fb X FS w) ch). exact HQ.
     - destruct (ch =? 35)%N; cbn [PostQ]; [exact HQ|]. destruct (fb_print (w_fb X FS w) 71%N). destruct (fb_print f ch). exact HQ.
@@ -446,7 +576,7 @@ Section ExecInv.
     - destruct (ch =? 13)%N; cbn [PostQ]; [exact HQ|]. destruct (ch =? 71)%N; cbn [PostQ]; [exact HQ|]. destruct (fb_print (w_fb X FS w) ch). exact HQ.
     - destruct ((c =? IGS_WRITETEXT)%N && Nat.leb 3 (length (i_nums (w_p X FS w)))).
       { destruct (ch =? 64)%N.
-        - pose proof (exec_Q (w_x X FS w) c (i_nums (w_p X FS w)) (i_str (w_p X FS w)) HQ) as E.
+        - pose proof (exec_Q (w_x X FS w) c (i_nums (w_p X FS w)) (i_str (w_p X FS w)) NI HQ) as E.
           destruct (exec (w_x X FS w) c (i_nums (w_p X FS w)) (i_str (w_p X FS w))). exact E.
         - destruct (ch =? 10)%N; exact HQ. }
       destruct ((c =? CH_LOOP)%N && Nat.leb 4 (length (i_nums (w_p X FS w)))).
@@ -461,7 +591,7 @@ Section ExecInv.
       destruct (ch =? 95)%N; [exact HQ|]. destruct (ch =? 10)%N; [exact HQ|]. destruct (is_digit ch); [exact HQ|].
       destruct (ch =? 44)%N; [exact HQ|].
       destruct (ch =? 58)%N; [|exact HQ].
-      pose proof (exec_Q (w_x X FS w) c (i_nums (w_p X FS w)) (i_str (w_p X FS w)) HQ) as E.
+      pose proof (exec_Q (w_x X FS w) c (i_nums (w_p X FS w)) (i_str (w_p X FS w)) NI HQ) as E.
       destruct (exec (w_x X FS w) c (i_nums (w_p X FS w)) (i_str (w_p X FS w))). exact E.
   Qed.
 
@@ -472,10 +602,12 @@ Section ExecInv.
     destruct (next_step X exec (w_x X FS w) l) as [[[[x' l'] ok]|]|s]; cbn [bind PostQ]; [exact E|exact HQ|exact I].
   Qed.
 
-  Lemma igs_run_Q es : forall w, Q (w_x X FS w) -> match igs_run X exec FS fb_print w es with Ok w' => Q (w_x X FS w') | Panic _ => True end.
+  Lemma igs_run_Q es : forall w, NumsOk (w_p X FS w) -> Q (w_x X FS w) ->
+    match igs_run X exec FS fb_print w es with Ok w' => Q (w_x X FS w') | Panic _ => True end.
   Proof.
-    induction es as [|e t IH]; intros w HQ; cbn [igs_run]; [exact HQ|].
-    assert (E : PostQ (igs_event X exec FS fb_print w e)) by (destruct e; [apply igs_step_Q|apply igs_next_action_Q]; exact HQ).
-    destruct (igs_event X exec FS fb_print w e) as [[w' ok]|s]; cbn [bind PostQ fst] in *; [apply IH; exact E|exact I].
+    induction es as [|e t IH]; intros w NO HQ; cbn [igs_run]; [exact HQ|].
+    assert (E : PostQ (igs_event X exec FS fb_print w e)) by (destruct e; [apply igs_step_Q; assumption|apply igs_next_action_Q; assumption]).
+    assert (B : PostN X FS (igs_event X exec FS fb_print w e)) by (destruct e; [apply igs_step_N|apply igs_next_action_N]; assumption).
+    destruct (igs_event X exec FS fb_print w e) as [[w' ok]|s]; cbn [bind PostQ PostN fst] in *; [apply IH; assumption|exact I].
   Qed.
 End ExecInv.
